@@ -33,10 +33,13 @@ def cargo_env(verif, extra=None):
     return env
 
 
-def run_module(pid, P, repo, verif, mode, seed, tier, inp=None, timeout=1500):
+def run_module(pid, P, repo, verif, mode, seed, tier, inp=None, timeout=None):
     mod = P.get("replay_module")
     if not mod:
         return dict(found=False, note="no witness search for this property")
+    if timeout is None:
+        # a case of the real code that neither returns nor panics within the limit is reported as a hang (progress file)
+        timeout = P.get("replay_timeout_thorough" if tier == "thorough" else "replay_timeout", 900 if tier == "thorough" else 150)
     d = scratch_copy(repo, "replay-" + pid)
     try:
         inject(d, verif, mod, "verif_replay")
@@ -49,11 +52,22 @@ def run_module(pid, P, repo, verif, mode, seed, tier, inp=None, timeout=1500):
         cmd = ["cargo", "test", "--offline", "--lib", "--release", "verif_replay::", "--", "--nocapture", "--test-threads=1"]
         t0 = time.time()
         try:
-            p = subprocess.run(cmd, cwd=d, env=env, capture_output=True, text=True, timeout=timeout)
-            tail = (p.stdout[-1500:] + "\n" + p.stderr[-1500:])
-            rc = p.returncode
-        except subprocess.TimeoutExpired:
-            tail = "timeout"
+            pr = subprocess.Popen(cmd, cwd=d, env=env, stdout=subprocess.PIPE, stderr=subprocess.PIPE, text=True, start_new_session=True)
+            try:
+                so, se = pr.communicate(timeout=timeout)
+                tail = (so[-1500:] + "\n" + se[-1500:])
+                rc = pr.returncode
+            except subprocess.TimeoutExpired:
+                import signal
+                try:
+                    os.killpg(pr.pid, signal.SIGKILL)
+                except ProcessLookupError:
+                    pass
+                pr.communicate()
+                tail = "no return within %d s (hang)" % timeout
+                rc = -1
+        except OSError as e:
+            tail = str(e)
             rc = -1
         res = dict(found=False, cmd=" ".join(cmd) + " (scratch copy of %s + replay/%s)" % (repo, mod), wall_s=round(time.time() - t0, 1), rc=rc)
         if os.path.exists(outp):
